@@ -466,6 +466,7 @@ func genFieldIndex(out *strings.Builder) {
 
 	out.WriteString(leanList("searchIndexBody", "`Header.SearchIndex`", stmtTokens(findFunc(f, "Header", "SearchIndex").Body.List)))
 	out.WriteString(leanList("containsObjectBody", "`Header.ContainsObject`", stmtTokens(findFunc(f, "Header", "ContainsObject").Body.List)))
+	out.WriteString(leanList("equalFieldIdentifiersBody", "`equalFieldIdentifiers` (how `ContainsObject` compares the formatted text of computed expressions)", stmtTokens(findFunc(f, "", "equalFieldIdentifiers").Body.List)))
 	out.WriteString(leanList("headerUpdateBody", "`Header.Update` (a derived table / CTE / aliased table gets its alias as view name)", stmtTokens(findFunc(f, "Header", "Update").Body.List)))
 }
 
@@ -528,6 +529,7 @@ func genFix(out *strings.Builder) {
 	out.WriteString("/-- `View.filter`: the record is kept when … -/\n")
 	out.WriteString("def filterKeeps (t : Tern) : Bool := " + ternTest(keep) + "\n\n")
 	out.WriteString(leanList("filterBody", "`View.filter`", stmtTokens(ff.Body.List)))
+	out.WriteString(leanList("evalColumnBody", "`View.evalColumn`: a select / ORDER BY item is looked up in the header only when it is a reference or an analytic function; everything else is calculated per record; then the alias is recorded", stmtTokens(findFunc(f, "View", "evalColumn").Body.List)))
 }
 
 // ternTest: primary.Ternary() == ternary.X  (or !=)
